@@ -17,7 +17,7 @@ PROPS = {
         level='proof',
         verus=['span', 'patterns', 'lexing', 'url', 'jsdoc', 'edit_distance', 'mask', 'mask_parser', 'document'],
         kani_quick=['lexing.whitespace_5', 'jsdoc.parse_inline_tag_4', 'jsdoc.parse_inline_tag_5'],
-        rac=['lexers', 'url_scanner', 'document_tiles', 'remove_indices', 'condense_indices', 'markdown_tokens', 'comment_frontends', 'lhs_frontend', 'typst_frontend'],
+        rac=['lexers', 'url_scanner', 'document_tiles', 'remove_indices', 'condense_indices', 'markdown_tokens', 'comment_frontends', 'lhs_frontend', 'typst_frontend', 'rule_spans', 'lint_group_cache'],
         kani_thorough=['lexing.whitespace_5', 'lexing.whitespace_8', 'lexing.hostname_4', 'lexing.url_4',
                        'jsdoc.parse_inline_tag_4', 'jsdoc.parse_inline_tag_5', 'jsdoc.parse_inline_tag_6'],
         unverified=[
@@ -79,7 +79,7 @@ PROPS = {
         level='proof',
         verus=['overlaps', 'overlaps32'],
         kani_quick=[], kani_thorough=[],
-        rac=['remove_indices', 'remove_overlaps', 'currency_conflict_free'],
+        rac=['remove_indices', 'remove_overlaps', 'currency_conflict_free', 'wasm_api'],
         unverified=[
             'VecExt::remove_indices body (Vec::retain with a stateful closure): contract assumed in Verus, executed exhaustively for every length <= 12 and every strictly increasing index list (bounded-rac, not proved)',
             'callers in harper-wasm / harper-cli / currency_placement.rs and that lints handed to remove_overlaps have start <= end (the precondition)',
